@@ -13,6 +13,7 @@ import RpyModel.Drv.C03
 import RpyModel.Drv.Flow
 import RpyModel.Drv.C06
 import RpyModel.Drv.C18
+import RpyModel.Drv.C12
 open Lean
 
 def dispatch (R : Type) [Num R] [Inhabited R] [NatCast R] (kind : String) (j : Json) : Except String Json :=
@@ -30,6 +31,7 @@ def dispatch (R : Type) [Num R] [Inhabited R] [NatCast R] (kind : String) (j : J
   | "scenario" => Drv.handleScenario R j
   | "explicit_fit" => Drv.handleExplicitFit R j
   | "activation" => Drv.handleActivation j
+  | "shapes" => Drv.handleShapes j
   | "graph_check" => Drv.handleGraphCheck j
   | "graph_prog" => Drv.handleGraphProg j
   | "eff_matrix" => Drv.handleEffMatrix R j
